@@ -67,7 +67,7 @@ def run(W, chk):
                     m.setdefault(o, set()).update(ops)
                 vm.append(m)
             base = [m.get("Store(LP_WEIGHT_HISTORY)") for m in vm]
-            want = {"add"} if fill == "true" else {"sat", "sub"}
+            want = {"add"} if fill == "true" else {"sat", "sub", "sub:l"}
             delta = [{o: frozenset(x) for o, x in m.items() if o not in ("Store(LP_WEIGHT_HISTORY)", "Const(0)")} for m in vm]
             okv = base[0] == want and base[1] == want and delta[0] == delta[1] and bool(delta[0])
             chk.expect(okv, "AGREE-twin-update", lab + ".values", "both snapshots = latest %s the same weight" % ("+" if fill == "true" else "-sat"),
